@@ -167,6 +167,18 @@ def run(repo: Repo, rep: Report, tier: str) -> None:
                   "keys saved before the body, map rebuilt from them after it" if saved and restored and uses_saved else
                   f"{attr} is mutated by loop bodies (e.g. {mutated[attr][0]}) but is not restored between iterations: a declaration in one iteration stays visible in the next and after the loop",
                   lf.loc(restored[0]) if restored else lf.loc(o))
+        # restoration must be by value for names the iteration itself binds (its declarations and the iterator): a copy of the map
+        # (not only its keys) has to be saved, and the rebuilt map has to read the saved values
+        by_value = any(isinstance(sv.value, ast.Call) and (call_name(sv.value) in ("dict", "copy", "deepcopy") or (isinstance(sv.value.func, ast.Attribute) and sv.value.func.attr == "copy")) or isinstance(sv.value, (ast.Dict, ast.DictComp))
+                       for sv in saved)
+        reads_saved_values = any(isinstance(x, ast.Subscript) and isinstance(x.value, ast.Name) and x.value.id in names and isinstance(x.ctx, ast.Load) for r in restored for x in ast.walk(r.value)) or \
+            any(isinstance(r.value, ast.Name) and r.value.id in names for r in restored) or \
+            any(isinstance(x, ast.Call) and isinstance(x.func, ast.Attribute) and x.func.attr == "get" and isinstance(x.func.value, ast.Name) and x.func.value.id in names for r in restored for x in ast.walk(r.value))
+        if saved and restored and uses_saved:
+            rep.check(by_value and reads_saved_values, "C16-R3", f"lower_for_stmt gives names shadowed by an iteration their outer ASTLowerer.{attr} value back",
+                      "map saved by value; shadowed names restored from the saved copy" if by_value and reads_saved_values else
+                      f"only the keys of {attr} are saved: `Signal x = ...; for i in 0..2 {{ Signal x = ...; }} Signal y = x + 1;` reads the last iteration's x (and a nested iterator of the same name overwrites the outer one)",
+                      lf.loc(restored[0]))
     vf = repo.func("SemanticAnalyzer.visit_ForStmt")
     vloops = [n for n in walk_local(vf.node) if isinstance(n, ast.For) and isinstance(n.iter, ast.Name)]
     if not vloops:
